@@ -1,11 +1,12 @@
 #!/bin/bash
-# run_all_seeded.sh [tier] : apply every kept seeded change (/verif/seeded/*/patch.diff) to /repo in turn, run the correspondence half
+# run_all_seeded.sh [tier] [glob of seed ids, default all] : apply every kept seeded change (/verif/seeded/*/patch.diff) to /repo in turn, run the correspondence half
 # of the property's own check (tools/cases_only.py), undo it; one line per seed: number of violations that are not known findings
-tier=${1:-quick}
+tier=${1:-quick}; pat=${2:-*}
 cd /verif
-for d in seeded/*/; do
+for d in seeded/$pat/; do
   sid=$(basename $d)
   prop=$(python3 -c "import json;print(json.load(open('$d/meta.json'))['property'])")
+  if python3 -c "import json,sys;sys.exit(0 if json.load(open('$d/meta.json')).get('obsolete') else 1)"; then echo "$sid obsolete (see meta.json)"; continue; fi
   git -C /repo diff --quiet || { echo "/repo not clean"; exit 2; }
   git -C /repo apply /verif/$d/patch.diff || { echo "$sid: patch does not apply"; continue; }
   out=$(timeout 3000 tools/cases_only.py $prop $tier 2>&1 | grep -v conda | grep "^$prop \|^VIOL\|^TIE\|^KNOWN")
